@@ -110,7 +110,42 @@ def arith_pool():
     return out
 
 
+def bool_pool():
+    """right and wrong equations of the boolean simplification / definition rules"""
+    if 'bool' in _P:
+        return _P['bool']
+    from kernel.term import Var, BoolType, And, Or, Not, Implies, Eq, true, false, Const
+    from kernel.type import TFun
+    from logic import logic
+    a, b, c = Var('a', BoolType), Var('b', BoolType), Var('c', BoolType)
+    xor = lambda s, t: Const('xor', TFun(BoolType, BoolType, BoolType))(s, t)
+    ite = logic.mk_if
+    out = [Eq(And(a, Not(a)), false), Eq(And(a, Not(a)), true), Eq(Or(a, Not(a)), true), Eq(Or(a, Not(a)), false), Eq(Or(a, a), a), Eq(And(a, b), a),
+           Eq(And(a, false), false), Eq(And(a, false), a), Eq(Or(a, true), true), Eq(Or(a, true), a), Eq(And(true, a), a), Eq(Or(false, a), a),
+           Eq(And(a, b, a), And(a, b)), Eq(Or(a, b, a), Or(a, b)), Eq(And(a, b, a), And(b, b)),
+           Eq(Implies(a, false), Not(a)), Eq(Implies(false, a), true), Eq(Implies(a, true), true), Eq(Implies(true, a), a), Eq(Implies(a, a), true),
+           Eq(Implies(Not(a), Not(b)), Implies(b, a)), Eq(Implies(a, b), Implies(b, a)), Eq(Implies(a, false), a), Eq(Implies(false, a), a),
+           Eq(Implies(Not(a), a), a), Eq(Implies(a, Not(a)), Not(a)), Eq(Implies(Implies(a, b), b), Or(a, b)), Eq(Implies(Implies(a, b), b), And(a, b)),
+           Eq(Eq(a, true), a), Eq(Eq(a, false), Not(a)), Eq(Eq(a, Not(a)), false), Eq(Eq(Not(a), Not(b)), Eq(a, b)), Eq(Eq(a, b), Eq(b, a)), Eq(Eq(a, b), a),
+           Eq(Eq(true, a), a), Eq(Eq(false, a), Not(a)), Eq(Eq(a, a), true), Eq(Eq(a, a), false), Eq(Eq(Not(a), a), false), Eq(Eq(a, false), a),
+           Eq(Not(Implies(a, b)), And(a, Not(b))), Eq(Not(Or(a, b)), And(Not(a), Not(b))), Eq(Not(And(a, b)), Or(Not(a), Not(b))),
+           Eq(Not(Or(a, b)), Or(Not(a), Not(b))), Eq(Not(And(a, b)), And(Not(a), Not(b))), Eq(Not(Implies(a, b)), And(Not(a), b)),
+           Eq(Implies(a, Implies(b, c)), Implies(And(a, b), c)), Eq(Implies(a, Implies(b, c)), Implies(Or(a, b), c)),
+           Eq(And(a, Implies(a, b)), And(a, b)), Eq(And(Implies(a, b), a), And(a, b)), Eq(And(a, Implies(a, b)), b),
+           Eq(Not(Not(a)), a), Eq(Not(false), true), Eq(Not(true), false), Eq(Not(true), true), Eq(Not(Not(a)), Not(a)),
+           Eq(ite(a, b, b), b), Eq(ite(Not(a), b, c), ite(a, c, b)), Eq(ite(a, true, false), a), Eq(ite(a, false, true), Not(a)),
+           Eq(ite(a, true, c), Or(a, c)), Eq(ite(a, b, false), And(a, b)), Eq(ite(a, false, c), And(Not(a), c)), Eq(ite(a, b, true), Or(Not(a), b)),
+           Eq(ite(a, b, false), Or(a, b)), Eq(ite(a, true, c), And(a, c)), Eq(ite(true, b, c), b), Eq(ite(false, b, c), c), Eq(ite(true, b, c), c),
+           Eq(ite(a, ite(a, b, c), c), ite(a, b, c)), Eq(ite(a, b, ite(a, c, b)), b), Eq(ite(a, b, ite(a, c, b)), c),
+           Eq(xor(a, b), Or(And(Not(a), b), And(a, Not(b)))), Eq(Eq(a, b), And(Implies(a, b), Implies(b, a))),
+           Eq(ite(a, b, c), And(Implies(a, b), Implies(Not(a), c))), Eq(xor(a, b), Eq(a, b)), Eq(Eq(a, b), And(Implies(a, b), Implies(a, b))),
+           Eq(ite(a, b, c), And(Implies(a, b), Implies(a, c)))]
+    _P['bool'] = out
+    return out
+
+
 def cases(tier):
+    yield ['arith', 1]
     for r in rules():
         if r in SPECIAL:
             continue
@@ -277,18 +312,18 @@ def run_arith(case, tier):
         if rule in SPECIAL:
             continue
         macro = theory.get_macro(rule)
-        for t in arith_pool():
+        for t in (arith_pool() if case[1] == 0 else bool_pool()):
             res = try_eval(macro, (t,), [])
-            cnt('arithmetic pool: tuples given to eval')
+            cnt('%s pool: tuples given to eval' % ('arithmetic' if case[1] == 0 else 'boolean'))
             if res is None:
                 continue
             cls, bad = judge(rule, (lambda t=t: '(%s)' % t), [], res)
-            cnt('arithmetic pool: accepted judged ' + cls)
+            cnt('%s pool: accepted judged %s' % ('arithmetic' if case[1] == 0 else 'boolean', cls))
             if bad:
                 return Outcome(cls, violation=bad)
             if cls == 'consequence':
                 n_acc += 1
-    return Outcome('accepted-all-consequences' if n_acc else 'nothing-accepted', n_acc > 0, obs='arith:%d' % n_acc)
+    return Outcome('accepted-all-consequences' if n_acc else 'nothing-accepted', n_acc > 0, obs='pool%d:%d' % (case[1], n_acc))
 
 
 # ------------------------------------------------------------------------------ solver-produced steps and their near misses
